@@ -1375,6 +1375,19 @@ fn run_c19(r: &mut RunResult, prop: &str, idx: u64, seed: u64, rng: &mut Rng, ti
         return;
     }
     // sampled: built-in models, pin level for small sizes, strips, larger sizes, consequences
+    if tier == Tier::Thorough && rng.chance(1, 400) {
+        // a strip through a real Display on a giant external model (Interface level)
+        let (w, h) = if rng.coin() { (65535u16, 32 + rng.below(8) as u16) } else { (32 + rng.below(8) as u16, 65535u16) };
+        let kind = *rng.pick(&[Kind::Serial, Kind::P8, Kind::P16]);
+        let mut cfg = base_config(rng, ModelId::Sim65535x65535, Transport::Trace(kind), w, h);
+        cfg.ox = cfg.ox.min(65535 - w);
+        cfg.oy = cfg.oy.min(65535 - h);
+        let rc = ReplayCase::Display(mk_case(prop, seed, cfg, vec![Op::TestImage]));
+        let key = class_key(&rc);
+        let j = judge(&rc);
+        absorb(r, rc, j, key);
+        return;
+    }
     match rng.below(6) {
         0 => {
             let w = *rng.pick(&[0u32, 1, 31, 32, 33, 97, 128, 255, 256, 500, 1000, 2048]);
